@@ -36,15 +36,16 @@ impl Prop for C12 {
             Tier::Tiny => 200,
         }
     }
-    fn required_probes(&self) -> Vec<&'static str> {
-        vec![
+    fn required_probes(&self) -> Vec<String> {
+        let v: Vec<&str> = vec![
             "overflow_twice_in_a_row",
             "overflow_pop_overflow",
             "clear_on_full",
             "pop_on_empty",
             "capacity_one",
             "vec_queue_long",
-        ]
+        ];
+        v.into_iter().map(String::from).collect()
     }
 
     fn gen(&self, seed: u64, run: u64, _tier: Tier) -> Trace {
